@@ -34,8 +34,8 @@ POk(k) == /\ ~k.ub
                                     /\ \A b \in 0..255 : LET s == k.pre \o <<b>> IN k.es[b + 1] = Encode(s) /\ k.acc[b + 1] /\ k.outs[b + 1] = s
                [] k.op = "dec" -> DecOk(k, k.e)
                [] k.op = "basic" -> BasicOk(k)
-\* I-layer: the decoding automaton as it is today; user names folded to lower case when cs = 0
-IOk(k) == CASE k.op = "dec" -> LET r == Nettle(k.e) IN k.upd = r.upd /\ Accepted(k) = r.ok /\ (Accepted(k) => k.out = r.out)
+\* I-layer: the decoding automaton of each implementation as it is today (Basic credentials go through the linked decoder); user names folded to lower case when cs = 0
+IOk(k) == CASE k.op = "dec" -> LET r == Automaton(k.impl, k.e) IN k.upd = r.upd /\ Accepted(k) = r.ok /\ (Accepted(k) => k.out = r.out)
             [] k.op = "basic" -> LET r == Nettle(CredPart(k.hdr)) IN
                                  (k.decoded /\ k.cs = 0 /\ ~HasCtl(r.out)) => k.user = Lower(SplitBasic(r.out).user)
             [] OTHER -> TRUE
